@@ -99,6 +99,88 @@ def bal_digits(ps, v):
 
 
 # ------------------------------------------------------------------ facts read from the source
+def _walk(n):
+    yield n
+    for c in n.get("inner", []) or []:
+        if isinstance(c, dict):
+            yield from _walk(c)
+
+
+AST_CLASSES = {"IntRNSsystem": {"_primes": "primes", "_prod": "prod", "_ck": "ck"},
+               "RNSsystem": {"_primes": "primes", "_ck": "ck"},
+               "RNSsystemFixed": {"_primes": "tree", "_RNS": "rns"}}
+AST_DEFAULT = {"IntRNSsystem": {"fields": ["primes", "prod", "ck"], "copy": {"primes": "primes", "prod": "prod", "ck": "ck"}, "assign": ["primes", "prod", "ck"], "assign_kind": "assumed"},
+               "RNSsystem": {"fields": ["primes", "ck"], "copy": {"primes": "primes", "ck": "ck"}, "assign": ["primes", "ck"], "assign_kind": "assumed"},
+               "RNSsystemFixed": {"fields": ["tree", "rns"], "copy": {"tree": "tree", "rns": "rns"}, "assign": ["tree", "rns"], "assign_kind": "assumed"}}
+
+
+def read_ast(chk):
+    """members / copy constructor / operator= of the three system classes from clang's JSON AST of harness/c14_ast.C against the
+    current tree (cached under build/cache by the content of the sources).  A failing clang run is a tooling problem: the
+    facts then fall back to the shape of the unchanged tree and the run says so (coverage.inconclusive)."""
+    import subprocess
+    src = os.path.join(vf.ROOT, "harness", "c14_ast.C")
+    try:
+        key = vf.file_hash(vf.repo_sources() + [src])
+        cache = os.path.join(vf.mkdir(os.path.join(vf.CACHE, "c14-ast")), key + ".json")
+        if os.path.exists(cache):
+            return json.load(open(cache))
+        cmd = ["clang++", "-std=gnu++11", "-fsyntax-only", "-w", "-DHAVE_CONFIG_H", "-DGIVARO_VERIF"] + vf.inc_flags() + \
+              ["-Xclang", "-ast-dump=json", "-Xclang", "-ast-dump-filter=RNSsystem", src]
+        p = subprocess.run(cmd, stdout=subprocess.PIPE, stderr=subprocess.PIPE, universal_newlines=True, timeout=900)
+        if p.returncode != 0:
+            return dict(AST_DEFAULT, error="clang failed: " + p.stderr[-300:])
+        out, dec, i, res = p.stdout, json.JSONDecoder(), 0, {}
+        while i < len(out):
+            while i < len(out) and out[i].isspace():
+                i += 1
+            if i >= len(out):
+                break
+            o, i = dec.raw_decode(out, i)
+            for n in _walk(o):
+                if n.get("kind") != "ClassTemplateSpecializationDecl" or n.get("name") not in AST_CLASSES or n["name"] in res:
+                    continue
+                names = AST_CLASSES[n["name"]]
+                fields = [c["name"] for c in n.get("inner", []) if c.get("kind") == "FieldDecl"]
+                if not fields:
+                    continue
+                D = {"all_fields": fields, "fields": [names[f] for f in fields if f in names], "copy": {}, "assign": [], "assign_kind": None, "copy_kind": None}
+                for c in n.get("inner", []):
+                    q = c.get("type", {}).get("qualType", "")
+                    if c.get("kind") == "CXXConstructorDecl" and re.match(r"void \(const [^)]*(%s<[^)]*>|Self_t) &\)" % n["name"], q):
+                        D["copy_kind"] = "implicit" if c.get("isImplicit") else "user"
+                        for x in c.get("inner", []):
+                            if x.get("kind") != "CXXCtorInitializer":
+                                continue
+                            tgt = (x.get("anyInit") or {}).get("name")
+                            if tgt in names:
+                                srcm = [m.get("name") for m in _walk(x) if m.get("kind") == "MemberExpr"]
+                                D["copy"][names[tgt]] = names.get(srcm[0], srcm[0]) if srcm else None
+                        if D["copy_kind"] == "implicit":
+                            D["copy"] = {names[f]: names[f] for f in fields if f in names}
+                    if c.get("kind") == "CXXMethodDecl" and c.get("name") == "operator=" and "&&" not in q:
+                        if c.get("explicitlyDeleted") or c.get("isDeleted"):
+                            D["assign_kind"] = "deleted"
+                        elif c.get("isImplicit"):
+                            D["assign_kind"] = "implicit"
+                            D["assign"] = [names[f] for f in fields if f in names]
+                        else:
+                            D["assign_kind"] = "user"
+                            cnt = {}
+                            for m in _walk(c):
+                                if m.get("kind") == "MemberExpr" and m.get("name") in names:
+                                    cnt[m["name"]] = cnt.get(m["name"], 0) + 1
+                            D["assign"] = [names[f] for f in fields if cnt.get(f, 0) >= 2]
+                res[n["name"]] = D
+        for k in AST_CLASSES:
+            if k not in res:
+                return dict(AST_DEFAULT, error="class %s not in the clang AST" % k)
+        json.dump(res, open(cache, "w"))
+        return res
+    except (OSError, subprocess.TimeoutExpired, ValueError) as ex:
+        return dict(AST_DEFAULT, error="clang AST dump did not run: %s" % ex)
+
+
 def read_source_facts(chk):
     facts = {}
     # 1. copy map of IntRNSsystem's copy constructor: which member initialises _ck
@@ -238,6 +320,48 @@ def read_source_facts(chk):
             and rc.get("ComputeCk_guard") and rc.get("Reciprocals") == rc.get("reciprocal") == "reads"):
         chk.broke("RNSsystem: constructors / setPrimes / ComputeCk / accessors no longer fill and read the reciprocal cache in the shape the object model "
                   "(dom_mk, dom_default, dom_copy, dom_setPrimes, dom_ensure_ck, dom_Reciprocals) was written after", str(rc) + " ".join(why))
+    # 4. the two sites that take a residue as it comes (audit item: "all residue vectors"), and the missing `throw`
+    try:
+        cv = strip(open(os.path.join(vf.REPO, "src/kernel/integer/givintrns_convert.inl")).read())
+        g = fn(cv, r"::\s*RnsToMixedRadix\s*\([^)]*\)")
+        body = g[2] if g else []
+        k = body.index("mixrad[0]=residu[0]") if "mixrad[0]=residu[0]" in body else -1
+        if k >= 0 and body[k + 1:k + 2] == ["modin(mixrad[0],_primes[0])"]:
+            facts["int_head"] = "reduced"
+        elif k >= 0 and not any(("mixrad[0]" in x) for x in body[k + 1:k + 2]):
+            facts["int_head"] = "copied"
+        elif "mod(mixrad[0],residu[0],_primes[0])" in body:
+            facts["int_head"] = "reduced"
+        else:
+            facts["int_head"] = None
+    except (OSError, ValueError):
+        facts["int_head"] = None
+    if facts["int_head"] is None:
+        chk.broke("IntRNSsystem::RnsToMixedRadix no longer produces the first digit in a shape the model knows (mixrad[0] = residu[0]; optionally reduced)")
+        facts["int_head"] = "copied"
+    try:
+        fx = strip(open(os.path.join(vf.REPO, "src/kernel/field/givrnsfixed.inl")).read())
+        g = fn(fx, r"::\s*RnsToRingLeft\s*\([^)]*\)")
+        body = g[2] if g else []
+        if "returnI=residues[(size_t)col]" in " ".join(body) or "else{returnI=residues[(size_t)col]" in "".join(body):
+            facts["fixed_leaf"] = "copied"
+        elif "I=residues[(size_t)col]" in "".join(body) and "returnInteger::modin(I,_primes[0][(size_t)col])" in "".join(body):
+            facts["fixed_leaf"] = "reduced"
+        else:
+            facts["fixed_leaf"] = None
+    except OSError:
+        facts["fixed_leaf"] = None
+    if facts["fixed_leaf"] is None:
+        chk.broke("RNSsystemFixed::RnsToRingLeft no longer handles a leaf in a shape the model knows (return I = residues[col]; optionally reduced)")
+        facts["fixed_leaf"] = "copied"
+    try:
+        cv = strip(open(os.path.join(vf.REPO, "src/kernel/field/givrnsconvert.inl")).read())
+        m = re.search(r"if\s*\(\s*!\s*Size\s*\)\s*(throw\s+)?GivError\s*\(", cv)
+        facts["rns_empty_throw"] = ("throws" if m.group(1) else "no throw") if m else None
+    except OSError:
+        facts["rns_empty_throw"] = None
+    # 5. data members, copy constructors and assignment operators from the clang AST (harness/c14_ast.C)
+    facts["ast"] = read_ast(chk)
     return facts
 
 
@@ -478,22 +602,61 @@ def run_par(binary, lines, nproc=6, timeout=1500):
     return 0, res, err
 
 
-def run_resilient(binary, lines, timeout=1500, max_restarts=40):
-    """run the implementation harness; when it dies on a line (segfault, abort) record CRASH for that line and go on
-    with the next one, so that a crashing input is reported as a concrete failing input"""
+KILLED_BY_ENV = (-9, -15, 137, 143)        # SIGKILL / SIGTERM: the OOM killer or an operator, not the code under test
+
+
+def run_single(binary, line, budget):
+    """one case alone, with its own CPU budget (seconds) -> (rc, first output line or None)"""
+    import subprocess
+    try:
+        p = subprocess.run([binary], input=line + "\n", stdout=subprocess.PIPE, stderr=subprocess.PIPE, universal_newlines=True,
+                           errors="replace", timeout=max(600, 20 * budget), env=dict(os.environ, C14_CPU_BUDGET=str(budget)))
+    except subprocess.TimeoutExpired:
+        return 124, None
+    o = p.stdout.splitlines()
+    return p.returncode, (o[0] if o else None)
+
+
+def run_resilient(binary, lines, timeout=1500, max_restarts=40, notes=None):
+    """run an implementation harness on `lines`.  When the process ends early the case it was working on is RE-RUN ALONE (CPU
+    budget 5 times larger) before anything is concluded:
+      HANG      the case used up its CPU budget twice (c14_watchdog.h; CPU time does not depend on the load)  -> failing input
+      CRASH ..  the process died on this case by a signal of its own (SIGSEGV, SIGABRT, ...), also when alone     -> failing input
+      KILLED    SIGKILL / SIGTERM (OOM killer, operator), also when alone; TIMEOUT: the wall-clock limit of the check itself
+                -> tooling: inconclusive, listed in the evidence, never counted as a pass or as a violation
+    A case that misbehaved in the stream but answers when run alone keeps that answer; the event is noted."""
+    notes = notes if notes is not None else []
     out, start, restarts, err = [], 0, 0, ""
+    budget = int(os.environ.get("C14_CPU_BUDGET", "60"))
     while start < len(lines):
         rc, o, e = vf.run_lines(binary, "".join(l + "\n" for l in lines[start:]), timeout=timeout)
         err += e[-500:]
-        out += o[:len(lines) - start]
+        o = o[:len(lines) - start]
+        hang = bool(o) and o[-1] == "HANG" and rc == 42
+        if hang:
+            o = o[:-1]
+        out += o
         if len(out) >= len(lines):
             break
         if rc == 124 and "[timeout]" in e:
-            # our own time limit (machine load), not a verdict about the implementation: the rest of the stream is inconclusive
+            # our own wall-clock limit (machine load), not a verdict about the implementation: the rest of the stream is inconclusive
             out += ["TIMEOUT"] * (len(lines) - len(out))
             break
+        k = len(out)                                   # the case the process was working on
+        rc1, l1 = run_single(binary, lines[k], 5 * budget)
+        if rc1 in KILLED_BY_ENV or (rc in KILLED_BY_ENV and rc1 != 0 and rc1 != 42):
+            rc1, l1 = run_single(binary, lines[k], 5 * budget)       # once more: the environment may have calmed down
+        if l1 == "HANG" and rc1 == 42:
+            out.append("HANG")
+        elif rc1 == 0 and l1 is not None:
+            out.append(l1)
+            notes.append("case %d ended the stream (rc=%s%s) but answers when run alone" % (k, rc, ", HANG" if hang else ""))
+        elif rc1 in KILLED_BY_ENV or rc1 == 124:
+            out.append("KILLED")
+            notes.append("case %d: process killed from outside / wall-clock limit (rc=%s, alone rc=%s)" % (k, rc, rc1))
+        else:
+            out.append("CRASH rc=%s" % rc1)
         restarts += 1
-        out.append("CRASH rc=%s" % rc)
         start = len(out)
         if restarts >= max_restarts:
             out += ["CRASH-LIMIT"] * (len(lines) - len(out))
@@ -532,25 +695,55 @@ def main(tier, replay=None):
         "ChineseRemainder<.,.,true>::operator() call sequence %s -> model variant %s" % (facts.get("cra_calls"), facts["cra_variant"]),
         "IntRNSsystem constructors initialise _ck: %s (templated -> model variant Ck%s); RNSsystem: %s" % (facts.get("int_ctor_ck"), facts["ttck"].capitalize(), facts.get("rns_ctor_ck")),
     ]
-    # 1. proofs
+    inconclusive, floor_missed, notes = [], [], []
+    chk.cov["inconclusive"] = inconclusive            # tooling problems of this run (never counted as a pass of the probe concerned)
+    chk.cov["floor_missed"] = floor_missed            # what the run must have compared at least, and did not
+    chk.cov["inconclusive_streams"] = inconclusive
+
+    def timed_out(log):
+        return "[timeout" in (log or "")
+
+    def give_up(msg):
+        inconclusive.append(msg)
+        floor_missed.append("nothing was compared with the implementation on this run: " + msg)
+        print("INCONCLUSIVE property=C14 " + msg)
+        return chk.finish()
+    # 1. proofs (a build that hits the time limit of the check is a tooling problem, not a broken proof)
     res = vf.coq_check_props(AREA)
-    chk.proof_result(res, AREA)
+    if not res["ok"] and timed_out(res["log"]) and not res["forbidden"]:
+        inconclusive.append("Coq build hit the time limit of the check: the theorems were not re-checked on this run")
+        floor_missed.append("theorems re-checked: 0 of %d" % len(res.get("theorems", [])))
+    else:
+        chk.proof_result(res, AREA)
     # 2. executables
-    drv, l1 = vf.ocaml_build(AREA) if os.path.exists(os.path.join(vf.coq_dir(AREA), "ocaml", "model.ml")) else (None, "extraction did not run")
+    mlp = os.path.join(vf.coq_dir(AREA), "ocaml", "model.ml")
+    if res["ok"] and not os.path.exists(mlp):
+        # model.ml is a git-ignored side effect of compiling Extract.v: when it is gone while Extract.vo is there, make does nothing
+        for ext in (".vo", ".vos", ".vok", ".glob"):
+            try:
+                os.remove(os.path.join(vf.coq_dir(AREA), "Extract" + ext))
+            except OSError:
+                pass
+        vf.coq_make(AREA)
+    drv, l1 = vf.ocaml_build(AREA) if os.path.exists(mlp) else (None, "extraction did not run")
     if drv is None:
-        chk.broke("extracted model driver does not build", l1)
-    himpl, l2 = vf.build_harness("c14_rns.C")
+        if timed_out(l1) or (not res["ok"] and timed_out(res["log"])):
+            inconclusive.append("extracted model driver not built (time limit): no correspondence on this run")
+        else:
+            chk.broke("extracted model driver does not build", l1)
+    himpl, l2 = vf.build_harness("c14_rns.C", deps=("c14_watchdog.h",))
     if himpl is None:
+        if timed_out(l2):
+            return give_up("the implementation harness did not finish compiling within the time limit of the check")
         chk.broke("implementation harness does not compile against /repo", l2)
         return chk.finish()
     # 2b. copy construction of the fixed system, assignment of the functor (compile-time probes)
-    hfix, l3 = vf.build_harness("c14_fixedcopy.C")
-    hasg, l4 = vf.build_harness("c14_craassign.C")
+    hfix, l3 = vf.build_harness("c14_fixedcopy.C", deps=("c14_watchdog.h",))
+    hasg, l4 = vf.build_harness("c14_craassign.C", deps=("c14_watchdog.h",))
     # 3. maxCardinality of the residue domains, from the implementation
     rc, mc, err = vf.run_lines(himpl, "".join("maxcard %s\n" % d for d in DOMS))
-    if rc == 124 and "[timeout]" in err:
-        chk.cov["inconclusive_streams"] = ["implementation harness hit the time limit of the check before any case ran"]
-        return chk.finish()
+    if (rc == 124 and "[timeout]" in err) or rc in KILLED_BY_ENV:
+        return give_up("the implementation harness was stopped from outside before any case ran (rc=%s)" % rc)
     if rc != 0 or len(mc) != len(DOMS):
         chk.broke("implementation harness failed on maxcard", err)
         return chk.finish()
@@ -563,19 +756,43 @@ def main(tier, replay=None):
     def other(n, hist):
         return OTHER[:min(n if hist in SAME_LEN_HISTS else n + 2, 72)]    # harness: other_primes()
 
+    A = facts["ast"]
+    if A.get("error"):
+        inconclusive.append("clang AST of harness/c14_ast.C not read (%s): members / copy / operator= assumed as in the unchanged tree" % A["error"])
+        floor_missed.append("source facts from the AST: 0 of 3 classes")
+    if A["IntRNSsystem"]["copy"].get("ck") != facts["cksrc"] and not (facts["cksrc"] == "nothing" and A["IntRNSsystem"]["copy"].get("ck") is None):
+        chk.broke("the copy map of IntRNSsystem read from the source text (%s) and from the clang AST (%s) differ" % (facts["cksrc"], A["IntRNSsystem"]["copy"]))
+    for cls in ("IntRNSsystem", "RNSsystem", "RNSsystemFixed"):
+        bad = [m for m in A[cls]["fields"] if A[cls]["copy"].get(m) not in (m, None)] if cls != "IntRNSsystem" else \
+              [m for m in ("primes", "prod") if A[cls]["copy"].get(m) != m]
+        if bad or A[cls]["assign_kind"] not in ("implicit", "user", "assumed"):
+            chk.broke("%s: copy constructor / operator= outside the shapes the object model can express (clang AST)" % cls, str(A[cls]))
+    STMT = {"_primes.allocate(0)": "alloc", "_ck.resize(0)": "resize", "ComputeCk()": "compute"}
+    prog = [STMT.get(x, "copy" if re.fullmatch(r"_primes\.copy\(\w+\)", x) else None) for x in (facts.get("rns_setPrimes_body") or [])]
+    if not prog or None in prog:
+        prog = ["alloc", "copy", "resize", "compute"]       # (an unknown statement was reported as a broken obligation by the reader)
+
+    def names(l):
+        return ",".join(l) if l else "-"
+    F_INT = "%s %s %s %d" % (facts["cksrc"], facts["ttck"], names(A["IntRNSsystem"]["assign"]), 1 if facts["int_head"] == "reduced" else 0)
+    F_DOM = "%s %s %s" % (names([m for m in A["RNSsystem"]["fields"] if A["RNSsystem"]["copy"].get(m) == m]), names(A["RNSsystem"]["assign"]), names(prog))
+    F_FIX = "%s %s %d %s" % (names([m for m in A["RNSsystemFixed"]["fields"] if A["RNSsystemFixed"]["copy"].get(m) == m]), names(A["RNSsystemFixed"]["assign"]),
+                             1 if facts["fixed_leaf"] == "reduced" else 0, F_DOM)
+    facts["model_parameters"] = {"isrc": F_INT, "dsrc": F_DOM, "fsrc": F_FIX}
+
     def add_sys(kind, hist, sub, ps, rs, al, ctor="Integer", order="mix", grid=False):
         n = len(ps)
         body = "%d %s %s %d %s" % (n, " ".join(map(str, ps)), " ".join(map(str, rs)), len(al), " ".join(map(str, al)))
         o = other(n, hist)
         if kind == "int":
             il = "int %s %s %s %s %s" % (hist, ctor, sub, order, body)
-            ml = "int %s %s %s %s %s %s %d %s" % (facts["cksrc"], facts["ttck"], ctor, order, hist, body, len(o), " ".join(map(str, o)))
+            ml = "int %s %s %s %s %s %d %s" % (F_INT, ctor, order, hist, body, len(o), " ".join(map(str, o)))
         elif sub in BALANCED:
             il = "rns %s %s %s %s" % (hist, sub, order, body)
             ml = "bal %s %s" % (order, body)      # balanced representatives: the model's answers do not depend on the history (C14_dom_history_independent)
         else:
             il = "rns %s %s %s %s" % (hist, sub, order, body)
-            ml = "rns %s %s %s %d %s" % (order, hist, body, len(o), " ".join(map(str, o)))
+            ml = "rns %s %s %s %s %d %s" % (F_DOM, order, hist, body, len(o), " ".join(map(str, o)))
         cases.append({"kind": kind, "hist": hist, "sub": sub, "ctor": ctor, "order": order, "grid": grid, "ps": ps, "rs": rs, "al": al,
                       "impl": il, "model": ml})
 
@@ -712,6 +929,27 @@ def main(tier, replay=None):
             rs = grid_residues(ps)
             add_sys("int", INT_HISTS[gi % len(INT_HISTS)], fit_tt(ctor, rs), ps, rs, grid_as(ps), ctor=ctor, order=INT_ORDERS[gi % len(INT_ORDERS)], grid=True)
             gi += 1
+    # ---- ANY representatives as residues (the property says "any residues"): a first residue outside [0, p_0) on every run,
+    #      for every history; the containers take raw integers, so this is inside the interface
+    gi = 0
+    for n in (1, 2, 3, 5, 16):
+        for hi, hist in enumerate(INT_HISTS):
+            ps = grid_moduli(n, gi, True)
+            rs = grid_residues(ps)
+            rs[0] += ps[0] * [1, -1, 3, -2, 7][(gi + hi) % 5]
+            for i in range(1, n):
+                if (i + gi) % 3 == 0:
+                    rs[i] -= ps[i] * (1 + i % 2)
+            add_sys("int", hist, fit_tt(INT_TTS[gi % len(INT_TTS)], rs), ps, rs, grid_as(ps), ctor=INT_CTORS[(gi + hi) % len(INT_CTORS)],
+                    order=INT_ORDERS[(gi + hi) % len(INT_ORDERS)], grid=True)
+            gi += 1
+    add_sys("int", "fresh", "Integer", [3, 5], [18, 2], [0], order="ring")
+    # ---- RNSsystem::MixedRadixToRing where the code raises GivError: no primes; another number of digits than primes
+    for dom in ("mi64", "mint", "mdouble"):
+        for ps, dg in (([], []), ([], [1]), ([3, 5], [1, 2, 4]), ([3, 5, 7], [1, 2]), ([3, 5, 7], []), ([3, 5, 7], [1, 2, 3])):
+            cases.append({"kind": "rnsexc", "hist": "", "sub": dom, "ps": ps, "dg": dg,
+                          "impl": "rnsexc %s %d %s %d %s" % (dom, len(ps), " ".join(map(str, ps)), len(dg), " ".join(map(str, dg))),
+                          "model": "rnsexc %s %d %s %d %s" % (F_DOM, len(ps), " ".join(map(str, ps)), len(dg), " ".join(map(str, dg)))})
     # the documented example of the known copy defect, and the examples of the seeded changes
     add_sys("int", "copycold", "Integer", [3, 5, 7], [1, 2, 3], [100, 7, 105, 0, -5])
     add_sys("int", "fresh", "Integer", [101, 7], [0, 3], [101, 7, 707, 706, -101])
@@ -724,14 +962,27 @@ def main(tier, replay=None):
     def add_fixed(hist, tt, ps, rs, grid=False):
         tt = fit_tt(tt, rs)
         il = "fixed %s %s %d %s %s" % (hist, tt, len(ps), " ".join(map(str, ps)), " ".join(map(str, rs)))
-        ml = "fixed %d %s %s" % (len(ps), " ".join(map(str, ps)), " ".join(map(str, rs)))
-        cases.append({"kind": "fixed", "hist": hist, "sub": tt, "grid": grid, "ps": ps, "rs": rs, "impl": il, "model": ml})
+        o = other(len(ps), hist)
+        body = "%d %s %s" % (len(ps), " ".join(map(str, ps)), " ".join(map(str, rs)))
+        ml = "fixed %s %s %s %d %s" % (F_FIX, hist, body, len(o), " ".join(map(str, o)))
+        cases.append({"kind": "fixed", "hist": hist, "sub": tt, "grid": grid, "ps": ps, "rs": rs, "impl": il, "model": ml, "body": body})
     gi = 0
     for n in FIX_GRID_LENS:
         for hist in FIX_HISTS:
             ps = grid_moduli(n, gi, True)
             add_fixed(hist, FIX_TTS[gi % len(FIX_TTS)], ps, grid_residues(ps), grid=True)
             gi += 1
+    # any representatives: every residue moved out of [0, p_i), in particular the one of an unpaired last prime (odd lengths)
+    for n in (1, 2, 3, 4, 5, 7, 9, 17):
+        for hi, hist in enumerate(FIX_HISTS):
+            ps = grid_moduli(n, gi, True)
+            rs = grid_residues(ps)
+            rs = [r + p * [1, -1, 2][(i + gi) % 3] for i, (r, p) in enumerate(zip(rs, ps))]
+            rs[-1] = ps[-1] + rs[-1] % ps[-1] if hi % 2 else rs[-1] % ps[-1] - 2 * ps[-1]
+            add_fixed(hist, FIX_TTS[gi % len(FIX_TTS)], ps, rs, grid=True)
+            gi += 1
+    add_fixed("fresh", "Integer", [7], [10])
+    add_fixed("fresh", "Integer", [3, 5, 7], [0, 3, 10])
     for rnd in range(8 if quick else 150):
         for hist in FIX_HISTS:
             n = rng.choice([1, 2, 3, 4, 5, 6, 7, 8, 9, 11, 15, 16, 17, 31, 33] if not rng.chance(1, 6) else lens_big)
@@ -857,8 +1108,7 @@ def main(tier, replay=None):
     # ---- run both sides
     import time
     t1 = time.time()
-    inconclusive = []
-    iout, ncrash, ierr = run_resilient(himpl, [c["impl"] for c in cases])
+    iout, ncrash, ierr = run_resilient(himpl, [c["impl"] for c in cases], notes=notes)
     if "TIMEOUT" in iout:
         inconclusive.append("implementation harness hit the time limit of the check: %d of %d cases not run" % (iout.count("TIMEOUT"), len(cases)))
     vf.log("[C14] %d cases generated in %.1fs, implementation ran in %.1fs (%d crashes)" % (len(cases), t1 - chk.t0, time.time() - t1, ncrash))
@@ -895,6 +1145,7 @@ def main(tier, replay=None):
     def flat(gs):
         return [str(x) for g in gs for x in g]
 
+    ncompared, nskipped = {}, {}     # per stream: cases compared with the oracle / not compared because of tooling (floor below)
     forms = {}            # call form -> number of cases that drove it (evidence: coverage.call_forms)
 
     def bump(name, k=1):
@@ -937,13 +1188,39 @@ def main(tier, replay=None):
         key = "%s/%s/%s" % (kind, c.get("sub", ""), c.get("hist", ""))
         dist[key] = dist.get(key, 0) + 1
         il = iout[i]
-        if il == "TIMEOUT":
+        if il in ("TIMEOUT", "KILLED"):
+            nskipped[kind] = nskipped.get(kind, 0) + 1       # tooling: inconclusive, not compared
             continue
+        ncompared[kind] = ncompared.get(kind, 0) + 1
         itoks = [t for t in il.split() if t != "|"]
+        mtoks0 = [t for t in mout[i].split() if t != "|"] if mout is not None else None
         spec_ok = True
+        known_class = False      # the difference from the oracle is a filed defect AND the model of the current body reproduces it
         exp_toks = None          # full expected output when the specification determines it
         try:
-            if il.startswith(("CRASH", "EXCEPTION", "BAD-")):
+            if kind == "rnsexc":
+                ps, dg = c["ps"], c["dg"]
+                want = "EXCEPTION" if (not ps or len(dg) != len(ps)) else str(sum(d * prod(ps[:k]) for k, d in enumerate(dg)))
+                exp_toks = [want]
+                chk.count((kind, c["sub"], tuple(ps), tuple(dg)), nontrivial=True)
+                bump("RNSsystem<Integer,%s>::MixedRadixToRing (%s)" % (CXX[c["sub"]], "no primes" if not ps else "%d digits on %d primes" % (len(dg), len(ps))))
+                if il != want:
+                    spec_ok = False
+                    if not ps and not dg and il.startswith("CRASH"):
+                        known_class = facts.get("rns_empty_throw") == "no throw"
+                        chk.fail_input("RNSsystem::MixedRadixToRing", "system without primes", c, want, il,
+                                       "`if (!Size) GivError(...)` without `throw`: the next statement indexes the empty array")
+                    else:
+                        chk.fail_input("RNSsystem<Integer,%s>::MixedRadixToRing" % CXX[c["sub"]], "%d digits on %d primes" % (len(dg), len(ps)), c, want, il,
+                                       "GivError expected for a system without primes / a digit array of another size; the value otherwise")
+            elif il == "HANG":
+                spec_ok = False
+                cls = {"lift": "ChineseRemainder (lifting chain)", "int": "IntRNSsystem", "rns": "RNSsystem<Integer,%s>" % CXX.get(c.get("sub"), "?"), "fixed": "RNSsystemFixed<Integer>",
+                       "cra": "ChineseRemainder", "poly": "Poly1CRT<%s>" % PCXX.get(c.get("sub"), "?")}[kind]
+                chk.count((kind, "hang", i), nontrivial=False)
+                chk.fail_input(cls + " (does not return)", "obtained by %s" % c.get("hist", ""), c, "a result", il,
+                               "the call used up its CPU-time budget in the stream and again when run alone with 5 times the budget (CPU time is load-independent)")
+            elif il.startswith(("CRASH", "EXCEPTION", "BAD-")):
                 spec_ok = False
                 cls = {"lift": "ChineseRemainder (lifting chain)", "int": "IntRNSsystem", "rns": "RNSsystem<Integer,%s>" % CXX.get(c.get("sub"), "?"), "fixed": "RNSsystemFixed<Integer>",
                        "cra": "ChineseRemainder", "poly": "Poly1CRT<%s>" % PCXX.get(c.get("sub"), "?")}[kind]
@@ -984,7 +1261,13 @@ def main(tier, replay=None):
                     names += (["product(second call)"] if kind == "int" else ["RnsToMixedRadix(exact-size destination)", "RnsToMixedRadix(oversized destination)"])
                     names += ["RingToRns(empty destination)", ORDER_NAME[order] + "(first call on the object)"]
                     bad = [names[j] for j in range(min(len(exp), len(got))) if got[j] != exp[j]] or ["shape"]
-                    if kind == "rns" and c["sub"] == "mru7" and set(bad) <= {"RingToRns", "RingToRns(empty destination)", "RingToRns(first call on the object)"} and max(abs(x) for x in al) >= (1 << 128):
+                    if kind == "int" and not (0 <= rs[0] < ps[0]) and facts["int_head"] == "copied" and mtoks0 == itoks:
+                        # IntRNSsystem copies residu[0] unreduced (filed; repair frag/C14.fix-3): the model of the body that is in the
+                        # tree reproduces the answer exactly, the oracle is the unique integer for ANY representatives
+                        known_class = True
+                        chk.fail_input("IntRNSsystem::RnsToMixedRadix", "non-canonical residu[0]", c, exp, il,
+                                       "first residue outside [0, p_0): digit 0 not below its modulus / value outside [0, prod): " + ", ".join(bad))
+                    elif kind == "rns" and c["sub"] == "mru7" and set(bad) <= {"RingToRns", "RingToRns(empty destination)", "RingToRns(first call on the object)"} and max(abs(x) for x in al) >= (1 << 128):
                         # root cause outside the anchored code: Modular<ruint<K>>::init(Element&, const Integer&) truncates the
                         # Integer to the element width before reducing (known finding of C04, "wider-than-element")
                         chk.fail_input(SITE_RU, KLASS_RU, c, exp, il, "residues of an integer wider than the element type are wrong")
@@ -1002,8 +1285,13 @@ def main(tier, replay=None):
                 form_count(kind, c)
                 if itoks[:2] != exp_toks[:2]:
                     spec_ok = False
-                    chk.fail_input("RNSsystemFixed<Integer>::RnsToRing", "obtained by %s, %d moduli" % (c["hist"], len(ps)), c, V, il,
-                                   "differs from the unique CRT value in [0, prod)")
+                    if len(ps) % 2 == 1 and not (0 <= rs[-1] < ps[-1]) and facts["fixed_leaf"] == "copied" and mtoks0 == itoks:
+                        known_class = True
+                        chk.fail_input("RNSsystemFixed<Integer>::RnsToRing", "non-canonical residue of the unpaired last prime", c, V, il,
+                                       "RnsToRingLeft returns the residue of a left leaf unreduced (filed; repair frag/C14.fix-4)")
+                    else:
+                        chk.fail_input("RNSsystemFixed<Integer>::RnsToRing", "obtained by %s, %d moduli" % (c["hist"], len(ps)), c, V, il,
+                                       "differs from the unique CRT value in [0, prod)")
                 # (a stored tree that differs from the model's while the conversion is still right is a broken tie, reported by the
                 #  correspondence comparison below: C14_fixed_tree would then speak about another table)
             elif kind == "cra":
@@ -1069,20 +1357,23 @@ def main(tier, replay=None):
             chk.fail_input("harness output", "unparsable", c, None, il, str(ex))
         if i % 211 == 0:
             chk.sample({"impl_case": c["impl"][:300], "impl_out": il[:300]})
-        # tie: implementation vs extracted model.  A case on which the implementation already disagrees with the oracle is
-        # reported as a failing input only (no additional correspondence break for the same case).
-        if mout is not None and c["model"] != "skip" and spec_ok:
+        # tie: implementation vs extracted model: compared on EVERY case the implementation answered (also where it differs from the
+        # oracle: the model describes the body that is in the tree, so it must reproduce a filed defect exactly).  Only a case
+        # on which the process died / hung has no implementation answer to compare.
+        if mout is not None and not il.startswith(("CRASH", "HANG", "BAD-")) and not (il == "EXCEPTION" and kind != "rnsexc"):
             ncorr += 1
-            mtoks = [t for t in mout[i].split() if t != "|"]
+            mtoks = mtoks0
             if mtoks != itoks:
                 broke("correspondence model/implementation differs on [%s]: model=%s impl=%s" % (c["impl"][:400], mout[i][:300], il[:300]))
-            elif exp_toks is not None and mtoks != exp_toks:
+            elif exp_toks is not None and mtoks != exp_toks and not known_class:
                 broke("extracted model differs from the oracle on [%s]: model=%s" % (c["impl"][:400], mout[i][:300]))
     if nbroke > 20:
         chk.broke("... %d more correspondence differences" % (nbroke - 20))
 
     # ---- the copy-constructor of the fixed system: compile-time probe, then a run
-    if hfix is None:
+    if hfix is None and timed_out(l3):
+        inconclusive.append("c14_fixedcopy did not finish compiling within the time limit: copies of RNSsystemFixed not probed")
+    elif hfix is None:
         if "givWithCopy" in l3 or "no matching function" in l3:
             chk.fail_input(SITE_FIXCOPY, KLASS_FIXCOPY, {"impl": "harness/c14_fixedcopy.C"}, "a copy-constructed RNSsystemFixed is usable",
                            "compile error: " + " ".join(l3.split())[:600])
@@ -1091,22 +1382,47 @@ def main(tier, replay=None):
     else:
         fc = [c for c in cases if c["kind"] == "fixed"][:400]
         fh = [FIX_COPY_HISTS[j % len(FIX_COPY_HISTS)] for j in range(len(fc))]
-        fo, _, fe = run_resilient(hfix, ["%s %s" % (h, c["model"].split(" ", 1)[1]) for h, c in zip(fh, fc)], timeout=900)
+        fo, _, fe = run_resilient(hfix, ["%s %s" % (h, c["body"]) for h, c in zip(fh, fc)], timeout=900, notes=notes)
+        fm = None
+        if drv:                       # the copies are objects of the model as well (fix_copy / fix_assign, member by member)
+            rcm, fm, fme = run_par(drv, ["fixed %s %s %s 0" % (F_FIX, h, c["body"]) for h, c in zip(fh, fc)], nproc=4, timeout=900)
+            if "[timeout]" in fme:
+                inconclusive.append("model driver hit the time limit on the copy histories of RNSsystemFixed"); fm = None
+            elif rcm != 0 or len(fm) != len(fc):
+                chk.broke("model driver failed on the copy histories of RNSsystemFixed", fme); fm = None
         if "TIMEOUT" in fo:
             inconclusive.append("c14_fixedcopy hit the time limit of the check")
         elif len(fo) != len(fc):
             chk.broke("c14_fixedcopy failed", fe)
         else:
-            for h, c, l in zip(fh, fc, fo):
+            for j, (h, c, l) in enumerate(zip(fh, fc, fo)):
+                if l in ("KILLED", "TIMEOUT"):
+                    nskipped["fixedcopy"] = nskipped.get("fixedcopy", 0) + 1
+                    continue
+                ncompared["fixedcopy"] = ncompared.get("fixedcopy", 0) + 1
                 V = crt_oracle(c["ps"], c["rs"])
                 chk.count(("fixedcopy", h, tuple(c["ps"]), tuple(c["rs"])), nontrivial=len(c["ps"]) >= 2)
                 dist["fixed//" + h] = dist.get("fixed//" + h, 0) + 1
+                bump("RNSsystemFixed<Integer> obtained by " + h)
+                mv = fm[j].split()[0] if fm is not None and fm[j].split() else None
                 if l.strip() != str(V):
-                    chk.fail_input(SITE_FIXCOPY, "obtained by %s, %d moduli" % (h, len(c["ps"])), dict(c, impl="c14_fixedcopy: %s %s" % (h, c["model"].split(" ", 1)[1])),
-                                   V, l, "copy-constructed fixed system differs from the CRT value")
+                    if l == "HANG":
+                        chk.fail_input(SITE_FIXCOPY + " (does not return)", "obtained by %s" % h, dict(c, impl="c14_fixedcopy: %s %s" % (h, c["body"])), V, l, "CPU budget used up twice")
+                    elif len(c["ps"]) % 2 == 1 and not (0 <= c["rs"][-1] < c["ps"][-1]) and facts["fixed_leaf"] == "copied" and mv == l.strip():
+                        chk.fail_input("RNSsystemFixed<Integer>::RnsToRing", "non-canonical residue of the unpaired last prime", dict(c, impl="c14_fixedcopy: %s %s" % (h, c["body"])), V, l,
+                                       "RnsToRingLeft returns the residue of a left leaf unreduced (filed; repair frag/C14.fix-4)")
+                    else:
+                        chk.fail_input(SITE_FIXCOPY, "obtained by %s, %d moduli" % (h, len(c["ps"])), dict(c, impl="c14_fixedcopy: %s %s" % (h, c["body"])),
+                                       V, l, "copy-constructed fixed system differs from the CRT value")
+                if mv is not None and not l.startswith(("CRASH", "HANG")):
+                    ncorr += 1
+                    if mv != l.strip():
+                        broke("correspondence model/implementation differs on a copied RNSsystemFixed [%s %s]: model=%s impl=%s" % (h, c["body"][:300], mv, l[:100]))
 
     # ---- assignment of the two-modulus functor: compile-time probe, then a run on the functor cases
-    if hasg is None:
+    if hasg is None and timed_out(l4):
+        inconclusive.append("c14_craassign did not finish compiling within the time limit: assignment of functors not probed")
+    elif hasg is None:
         if "operator=" in l4 or "deleted" in l4 or "assignment" in l4:
             chk.fail_input(SITE_CRAASSIGN, "does not compile", {"impl": "harness/c14_craassign.C"}, "a functor can be assigned from another one",
                            "compile error: " + " ".join(l4.split())[:600])
@@ -1114,13 +1430,17 @@ def main(tier, replay=None):
             chk.broke("harness/c14_craassign.C does not compile against /repo for another reason", l4)
     else:
         ac = [c for c in cases if c["kind"] == "cra" and c["sub"] in ("mi64", "mint", "mdouble")][:300]
-        ao, _, ae = run_resilient(hasg, ["%s %d %d %d %d %d" % (c["sub"], 1 if c["red"] else 0, c["M"], c["D"], c["A"], c["e"]) for c in ac], timeout=900)
+        ao, _, ae = run_resilient(hasg, ["%s %d %d %d %d %d" % (c["sub"], 1 if c["red"] else 0, c["M"], c["D"], c["A"], c["e"]) for c in ac], timeout=900, notes=notes)
         if "TIMEOUT" in ao:
             inconclusive.append("c14_craassign hit the time limit of the check")
         elif len(ao) != len(ac):
             chk.broke("c14_craassign failed", ae)
         else:
             for c, l in zip(ac, ao):
+                if l in ("KILLED", "TIMEOUT"):
+                    nskipped["craassign"] = nskipped.get("craassign", 0) + 1
+                    continue
+                ncompared["craassign"] = ncompared.get("craassign", 0) + 1
                 chk.count(("craassign", c["sub"], c["red"], c["M"], c["D"], c["A"], c["e"]), nontrivial=c["M"] > 1)
                 bump("ChineseRemainder<IntegerDom,%s,%s>::operator= (over a used functor; self)" % (CXX[c["sub"]], "true" if c["red"] else "false"))
                 M, D, A, e = c["M"], c["D"], c["A"], c["e"]
@@ -1145,7 +1465,23 @@ def main(tier, replay=None):
                        "Poly1CRT over GF(p), p in {2,3,5,7,101,65521,2^31-1,2^32-5,...}; non-trivial = at least two moduli and value > 1; distinct = (kind, domain, history, moduli, residues)"
                        % max(lens_big))
     chk.cov["traces_validated_against_impl"] = ncorr
-    chk.cov["inconclusive_streams"] = inconclusive
+    # ---- the floor: what a run must have compared to count as a run of this check (tooling problems must not look like a pass)
+    FLOOR = {"int": 900, "rns": 900, "fixed": 200, "cra": 60, "lift": 40, "poly": 120, "rnsexc": 15, "fixedcopy": 150, "craassign": 30} if quick else \
+            {"int": 2500, "rns": 5000, "fixed": 800, "cra": 1000, "lift": 800, "poly": 1500, "rnsexc": 15, "fixedcopy": 300, "craassign": 200}
+    if replay:
+        FLOOR = {}
+    for k, need in FLOOR.items():
+        if ncompared.get(k, 0) < need:
+            floor_missed.append("stream %s: %d cases compared with the oracle, floor %d (%d not run because of tooling)" % (k, ncompared.get(k, 0), need, nskipped.get(k, 0)))
+    need_corr = 0 if replay else (2600 if quick else 12000)
+    if ncorr < need_corr:
+        floor_missed.append("correspondence model/implementation: %d comparisons, floor %d" % (ncorr, need_corr))
+    chk.cov["compared_per_stream"] = dict(ncompared)
+    chk.cov["not_run_per_stream"] = dict(nskipped)
+    chk.cov["floor"] = dict(FLOOR, correspondence=need_corr)
+    if inconclusive or floor_missed:
+        print("INCONCLUSIVE property=C14 %s" % "; ".join((inconclusive + floor_missed)[:6]))
+    chk.cov["stream_notes"] = notes[:20]
     chk.cov["call_forms"] = dict(sorted(forms.items()))
     chk.cov["distribution"] = dist
     chk.cov["source_facts"] = {k: (v if isinstance(v, (str, list)) else str(v)) for k, v in facts.items()}
